@@ -182,11 +182,18 @@ From V Require Import C16.JsLex.
 (* js_lexer: (which, text, status, a, b, c, d)   status 3 = the typed LexerPanic (syntax error)
    which 0 string/template first token: a = token kind (1 string, 2 no-substitution template, 3 template head),
            b = lexer.end, c = len(text slice), d unused
-   which 1 ScanRegExp: a = lexer.end, b = lexer.current, c = lexer.codePoint *)
+   which 1 ScanRegExp: a = lexer.end, b = lexer.current, c = lexer.codePoint
+   which 2 RescanCloseBraceAsTemplateToken on a text starting with '}': a = 4 template tail / 5 template middle, b, c as for 0 *)
 Definition jslex_ok (x : Z * bytes * Z * Z * Z * Z) : bool :=
   let '(which, t, st, a, b, c) := x in
   if which =? 0 then
     match run_jsstring t with
+    | Ok (Some (k, e, n)) => (st =? 0) && (a =? k) && (b =? e) && (c =? n)
+    | Ok None => st =? 3
+    | r => st =? status_of r
+    end
+  else if which =? 2 then
+    match run_jstemplate_tail t with
     | Ok (Some (k, e, n)) => (st =? 0) && (a =? k) && (b =? e) && (c =? n)
     | Ok None => st =? 3
     | r => st =? status_of r
